@@ -472,8 +472,14 @@ func runJournal(t *sim.T, which string) *sim.Violation {
 						return describe("absent-trip-list-changed", nil)
 					}
 				case len(us) == 1 && !us[0].applied:
+					// An update without a vehicle for a trip already seen with one. Whether such an update is
+					// dropped is C15's clause ("do not alter its recorded data"), not C14's: here the list may
+					// be unchanged, or it may be what C14 allows for an applied update.
 					if prevKnown && !listEq(cur, prev) {
-						return describe("ignored-update-changed-list", us[0].u.StopTimeUpdates)
+						if clause := allowedC14(prev, cur, us[0].u.StopTimeUpdates, T, prevKnown); clause != "" {
+							return describe("vehicle-less-update:"+clause, us[0].u.StopTimeUpdates)
+						}
+						t.Probe("vehicle-less-update-applied")
 					}
 				case len(us) == 1:
 					U := us[0].u.StopTimeUpdates
